@@ -1,11 +1,25 @@
 /-
-C20 — plot data is faithful (partial).
+C20 — plot data is faithful: one record per cell, correct metrics and labels (PARTIAL: altair /
+Vega-Lite validity and the square root of `sd` are outside the model).
+
+The model `buildPlotData` is parameterised by the metric table; the theorems below instantiate it
+with `Generated.PlotMetrics.metrics` (regenerated from COMMON_METRIC_DICT's lambdas each run) and
+`Generated.Plot.{quantileLevels, fieldSummaryFields}`. What a metric NAME and a statistic NAME
+state is written in `Spec/C20.lean` from the property text, independently of the tables.
+Helper lemmas: `Lemmas/Plot.lean`.
 -/
 import Bermuda.Model.Plot
 import Bermuda.Spec.C20
+import Bermuda.Lemmas.Plot
 import Bermuda.Generated.PlotMetrics
 namespace Bermuda.Properties.C20
 open Bermuda Bermuda.Plot
+
+/-- the metric of `COMMON_METRIC_DICT` with this display name -/
+def metricNamed (name : String) : Option Metric :=
+  Generated.PlotMetrics.metrics.find? (·.name == name)
+
+/-! ### 1. records -/
 
 /-- exactly one record per cell, in the triangle's own cell order, carrying that cell's period,
 evaluation date and development lag -/
@@ -13,5 +27,253 @@ theorem records_one_per_cell_in_order (ms : List Metric) (t : List Cell) :
     (buildPlotData ms t).map (fun r => (r.ps, r.pe, r.ev, r.devLag)) =
       t.map (fun c => (c.ps, c.pe, c.ev, devLagMonths c.pe c.ev)) := by
   simp [buildPlotData, mkRecord, Cell.devLag, calculateDevLag, Function.comp_def]
+
+theorem records_length (ms : List Metric) (t : List Cell) :
+    (buildPlotData ms t).length = t.length := by
+  simp [buildPlotData]
+
+/-- the Spec clause holds on the model's output (exactly: tolerance 0) -/
+theorem onePerCell_model (ms : List Metric) (t : List Cell) :
+    Spec.C20.onePerCell 0 t (buildPlotData ms t) = true := by
+  have h : ∀ (f : Cell → List (String × Summary)) (l : List Cell),
+      Spec.C20.onePerCell 0 l (l.map fun c => mkRecord c (f c)) = true := by
+    intro f l
+    unfold Spec.C20.onePerCell
+    induction l with
+    | nil => rfl
+    | cons c rest ih =>
+      simp only [List.map_cons, Spec.C20.all2, Bool.and_eq_true]
+      refine ⟨?_, ih⟩
+      simp [mkRecord, Cell.devLag, calculateDevLag, Spec.C20.approx, Spec.C20.absR]
+  exact h _ t
+
+/-! ### 2. what each built-in metric computes (tables are the generated ones) -/
+
+/-- the three loss ratios are `100 · loss / earned_premium` of the cell's OWN values, whatever the
+neighbours are -/
+theorem lossRatio_value (c : Cell) (p n : Option Cell) :
+    (metricNamed "Paid Loss Ratio").map (safeApplyMetric · c p n) = some (Spec.C20.ratio100 c "paid_loss") ∧
+    (metricNamed "Reported Loss Ratio").map (safeApplyMetric · c p n) = some (Spec.C20.ratio100 c "reported_loss") ∧
+    (metricNamed "Incurred Loss Ratio").map (safeApplyMetric · c p n) = some (Spec.C20.ratio100 c "incurred_loss") := by
+  have h1 : metricNamed "Paid Loss Ratio" = some ⟨"Paid Loss Ratio", 1,
+      .div (.mul (.num 100) (.field .cell "paid_loss")) (.field .cell "earned_premium")⟩ := by decide +kernel
+  have h2 : metricNamed "Reported Loss Ratio" = some ⟨"Reported Loss Ratio", 1,
+      .div (.mul (.num 100) (.field .cell "reported_loss")) (.field .cell "earned_premium")⟩ := by decide +kernel
+  have h3 : metricNamed "Incurred Loss Ratio" = some ⟨"Incurred Loss Ratio", 1,
+      .div (.mul (.num 100) (.field .cell "incurred_loss")) (.field .cell "earned_premium")⟩ := by decide +kernel
+  have key : ∀ loss : String,
+      safeApplyMetric ⟨"", 1, .div (.mul (.num 100) (.field .cell loss)) (.field .cell "earned_premium")⟩ c p n
+        = Spec.C20.ratio100 c loss := by
+    intro loss
+    simp only [safeApplyMetric, MExpr.eval, Spec.C20.ratio100, Spec.C20.cellField]
+    cases readField (some c) loss <;> cases readField (some c) "earned_premium" <;> simp
+  rw [h1, h2, h3]
+  exact ⟨congrArg some (key _), congrArg some (key _), congrArg some (key _)⟩
+
+/-- plain fields are passed through: the metric is the cell's own stored value -/
+theorem passthrough_value (c : Cell) (p n : Option Cell) :
+    ∀ e ∈ [("Paid Loss", "paid_loss"), ("Reported Loss", "reported_loss"),
+           ("Incurred Loss", "incurred_loss"), ("Earned Premium", "earned_premium"),
+           ("Reported Claims", "reported_claims")],
+      (metricNamed e.1).map (safeApplyMetric · c p n) = some (Spec.C20.cellField c e.2) := by
+  have h : ∀ e ∈ [("Paid Loss", "paid_loss"), ("Reported Loss", "reported_loss"),
+           ("Incurred Loss", "incurred_loss"), ("Earned Premium", "earned_premium"),
+           ("Reported Claims", "reported_claims")],
+      metricNamed e.1 = some ⟨e.1, 1, .field .cell e.2⟩ := by decide +kernel
+  intro e he
+  rw [h e he]
+  rfl
+
+/-- age-to-age metrics divide the SUCCESSOR's value (the `next_cell` handed in by the row) by the
+cell's own; no successor ⇒ no value -/
+theorem ata_value (c : Cell) (p n : Option Cell) :
+    ∀ e ∈ [("Paid ATA", "paid_loss"), ("Reported ATA", "reported_loss")],
+      (metricNamed e.1).map (safeApplyMetric · c p n) =
+        some (do let a ← readField n e.2; let b ← readField (some c) e.2; MV.bin ratDiv a b) := by
+  have h : ∀ e ∈ [("Paid ATA", "paid_loss"), ("Reported ATA", "reported_loss")],
+      metricNamed e.1 = some ⟨e.1, 3, .div (.field .next e.2) (.field .cell e.2)⟩ := by decide +kernel
+  intro e he
+  rw [h e he]
+  rfl
+
+theorem ataIncr_value (c : Cell) (p n : Option Cell) :
+    ∀ e ∈ [("Paid Incremental ATA", "paid_loss"), ("Reported Incremental ATA", "reported_loss")],
+      (metricNamed e.1).map (safeApplyMetric · c p n) =
+        some (do let r ← (do let a ← readField n e.2; let b ← readField (some c) e.2; MV.bin ratDiv a b)
+                 MV.bin ratSub r (.scalar 1)) := by
+  have h : ∀ e ∈ [("Paid Incremental ATA", "paid_loss"), ("Reported Incremental ATA", "reported_loss")],
+      metricNamed e.1 = some ⟨e.1, 3, .sub (.div (.field .next e.2) (.field .cell e.2)) (.num 1)⟩ := by
+    decide +kernel
+  intro e he
+  rw [h e he]
+  simp only [Option.map_some, safeApplyMetric, MExpr.eval]
+  rfl
+
+/-- the metric table is exactly the twelve names the Spec knows, in snake case, without clashes -/
+theorem metric_names :
+    Generated.PlotMetrics.metrics.map (toSnake ·.name) = Spec.C20.table.map (·.1) ∧
+    (Spec.C20.table.map (·.1)).Nodup := by
+  decide +kernel
+
+/-! ### 3. absent inputs ⇒ no summary -/
+
+theorem readField_absent {c : Cell} {k : String} (h : c.values.get? k = none) :
+    readField (some c) k = none := by
+  simp [readField, h]
+
+/-- a loss ratio has no value when the premium or the loss is absent (or `None`) -/
+theorem ratio_absent {c : Cell} {loss : String}
+    (h : readField (some c) "earned_premium" = none ∨ readField (some c) loss = none) :
+    Spec.C20.ratio100 c loss = none := by
+  unfold Spec.C20.ratio100 Spec.C20.cellField
+  rcases h with h | h
+  · rw [h]; cases readField (some c) loss <;> rfl
+  · rw [h]; rfl
+
+/-- an age-to-age metric has no value for the last evaluation of a row -/
+theorem ata_absent_without_successor (c : Cell) (p : Option Cell) :
+    ∀ e ∈ ["Paid ATA", "Reported ATA", "Paid Incremental ATA", "Reported Incremental ATA"],
+      (metricNamed e).map (safeApplyMetric · c p none) = some none := by
+  intro e he
+  simp only [List.mem_cons, List.not_mem_nil, or_false] at he
+  rcases he with rfl | rfl | rfl | rfl
+  · have := ata_value c p none _ (List.mem_cons_self ..); simpa [readField] using this
+  · have := ata_value c p none ("Reported ATA", "reported_loss") (by simp); simpa [readField] using this
+  · have := ataIncr_value c p none _ (List.mem_cons_self ..); simpa [readField] using this
+  · have := ataIncr_value c p none ("Reported Incremental ATA", "reported_loss") (by simp)
+    simpa [readField] using this
+
+/-- the names in a cell's summary dict are exactly the metrics that produced a value: a metric
+whose inputs are absent contributes NO entry (`remove_empties`) -/
+theorem absent_input_no_summary (ms : List Metric) (c : Cell) (p n : Option Cell) :
+    (cellSummaries ms c p n).map (·.1) =
+      (ms.filter fun m => (safeApplyMetric m c p n).isSome).map (toSnake ·.name) := by
+  unfold cellSummaries
+  induction ms with
+  | nil => rfl
+  | cons m rest ih =>
+    simp only [List.filterMap_cons, List.filter_cons]
+    cases h : safeApplyMetric m c p n <;> simp [ih]
+
+/-! ### 4. statistics and their names -/
+
+/-- the statistics are attached to the dataclass fields by POSITION; read as names, position by
+position: the first five are mean, median, sd, min, max and the q-fields parse to exactly the
+levels handed to `np.quantile` — `q2_5 ↦ 1/40, q5 ↦ 1/20, …, q80 ↦ 4/5, …, q97_5 ↦ 39/40` -/
+theorem quantile_levels_named :
+    statNames.take 5 = ["mean", "median", "sd", "min", "max"] ∧
+    ((statNames.drop 5).take Generated.Plot.quantileLevels.length).map Spec.C20.parseLevel
+      = Generated.Plot.quantileLevels.map some ∧
+    (statNames.drop 5).zip Generated.Plot.quantileLevels =
+      [("q2_5", (1 : Rat) / 40), ("q5", (1 : Rat) / 20), ("q10", (1 : Rat) / 10), ("q20", (1 : Rat) / 5),
+       ("q50", (1 : Rat) / 2), ("q80", (4 : Rat) / 5), ("q90", (9 : Rat) / 10), ("q95", (19 : Rat) / 20),
+       ("q97_5", (39 : Rat) / 40)] ∧
+    (statNames.take (5 + Generated.Plot.quantileLevels.length)) = Spec.C20.requiredStats := by
+  decide +kernel
+
+/-- levels are non-negative, at most 1, and ascending in field order -/
+theorem quantile_levels_sorted :
+    Generated.Plot.quantileLevels.Pairwise (· ≤ ·) ∧
+    ∀ q ∈ Generated.Plot.quantileLevels, 0 ≤ q ∧ q ≤ 1 := by
+  decide +kernel
+
+/-- `np.quantile` (linear interpolation) is monotone in the level -/
+theorem quantile_mono {xs : List Rat} (hne : xs ≠ []) {q q' : Rat} (h0 : 0 ≤ q) (h : q ≤ q') :
+    quantile xs q ≤ quantile xs q' := by
+  rw [quantile_eq_interp, quantile_eq_interp]
+  have hn : (1 : Rat) ≤ (xs.length : Rat) := by
+    have : 1 ≤ xs.length := List.length_pos_iff.mpr hne
+    exact_mod_cast this
+  apply interp_mono (sortRat_sorted xs)
+  · exact mul_nonneg h0 (by linarith)
+  · exact mul_le_mul_of_nonneg_right h (by linarith)
+
+/-- every quantile lies between the sample minimum and maximum -/
+theorem min_le_quantile_le_max (xs : List Rat) (q : Rat) (h0 : 0 ≤ q) :
+    minimum xs ≤ quantile xs q ∧ quantile xs q ≤ maximum xs := by
+  rw [quantile_eq_interp]
+  have hs := sortRat_sorted xs
+  obtain ⟨lo, hi⟩ := interp_bounds hs (q * ((xs.length : Rat) - 1))
+  unfold minimum maximum
+  constructor
+  · exact le_trans (nth_zero_le hs _) lo
+  · have := nth_le_last hs ((q * ((xs.length : Rat) - 1)).floor.toNat + 1)
+    rw [sortRat_length] at this
+    exact le_trans hi this
+
+/-- the quantile entries of a sample summary, in field order (= ascending stated level, see
+`quantile_levels_named`), are non-decreasing -/
+theorem summary_monotone {xs : List Rat} (hne : xs ≠ []) :
+    (Generated.Plot.quantileLevels.map (quantile xs)).Pairwise (· ≤ ·) := by
+  obtain ⟨hs, hb⟩ := quantile_levels_sorted
+  rw [List.pairwise_map]
+  exact hs.imp_of_mem fun {a b} ha _ hab => quantile_mono hne (hb a ha).1 hab
+
+/-- shape of a sample summary: the five moments followed by the quantiles at the generated levels -/
+theorem statValues_shape (xs : List Rat) :
+    statValues xs = [.exact (mean xs), .exact (median xs), .sqrt (variance xs), .exact (minimum xs),
+      .exact (maximum xs)] ++ (Generated.Plot.quantileLevels.map (quantile xs)).map .exact := by
+  simp [statValues, Function.comp_def]
+
+/-! ### 5. neighbours come from the same slice and period -/
+
+/-- the predecessor and successor handed to a metric belong to the cell's own (metadata, period)
+row — never to another slice -/
+theorem neighbours_same_slice (t : List Cell) :
+    ∀ kr ∈ slicePeriodRows t, ∀ tr ∈ rowTriples kr.2,
+      tr.1 ∈ t ∧ rowKey tr.1 = kr.1 ∧
+      (∀ p, tr.2.1 = some p → p ∈ t ∧ rowKey p = rowKey tr.1) ∧
+      (∀ n, tr.2.2 = some n → n ∈ t ∧ rowKey n = rowKey tr.1) := by
+  intro kr hkr tr htr
+  obtain ⟨hc, hp, hn⟩ := mem_zip3 htr
+  have kc := rowKey_of_mem_slicePeriodRows hkr hc
+  refine ⟨mem_of_mem_slicePeriodRows hkr hc, kc, ?_, ?_⟩
+  · intro p hpe
+    rw [hpe] at hp
+    have : p ∈ kr.2 := by
+      rcases List.mem_cons.mp hp with h | h
+      · cases h
+      · obtain ⟨x, hx, hxe⟩ := List.mem_map.mp h
+        cases hxe
+        exact List.dropLast_subset _ hx
+    exact ⟨mem_of_mem_slicePeriodRows hkr this, (rowKey_of_mem_slicePeriodRows hkr this).trans kc.symm⟩
+  · intro n hne
+    rw [hne] at hn
+    have : n ∈ kr.2 := by
+      rcases List.mem_append.mp hn with h | h
+      · obtain ⟨x, hx, hxe⟩ := List.mem_map.mp h
+        cases hxe
+        exact List.mem_of_mem_drop hx
+      · simp at h
+    exact ⟨mem_of_mem_slicePeriodRows hkr this, (rowKey_of_mem_slicePeriodRows hkr this).trans kc.symm⟩
+
+/-! ### non-vacuity -/
+
+/-- a two-evaluation row: the first cell's Paid ATA is next/own = 3/2, its loss ratio 100·2/4 = 50,
+the second cell has no ATA -/
+example :
+    let c1 : Cell := { ps := ⟨2020, 1, 1⟩, pe := ⟨2020, 12, 31⟩, ev := ⟨2020, 12, 31⟩,
+                       values := [("paid_loss", .int 2), ("earned_premium", .int 4)] }
+    let c2 : Cell := { c1 with ev := ⟨2021, 12, 31⟩, values := [("paid_loss", .int 3), ("earned_premium", .int 4)] }
+    (metricNamed "Paid ATA").map (safeApplyMetric · c1 none (some c2)) = some (some (.scalar ((3 : Rat) / 2))) ∧
+    (metricNamed "Paid Loss Ratio").map (safeApplyMetric · c1 none (some c2)) = some (some (.scalar 50)) ∧
+    (metricNamed "Paid ATA").map (safeApplyMetric · c2 (some c1) none) = some none := by
+  decide +kernel
+
+/-- the interpolation on an already sorted sample: the median of 1,2,3,4 is 5/2, the 2.5th
+percentile 1 + 3/40 -/
+example : interp [1, 2, 3, 4] (((1 : Rat) / 2) * (4 - 1)) = (5 : Rat) / 2 ∧
+    interp [1, 2, 3, 4] (((1 : Rat) / 40) * (4 - 1)) = (43 : Rat) / 40 := by
+  decide +kernel
+
+-- OPEN spec_holds_on_model
+--   theorem spec_holds_on_model (t : List Cell) (hd : t.Pairwise (fun a b => cellEq a b = false)) :
+--     Spec.C20.holds 0 t (buildPlotData Generated.PlotMetrics.metrics t) = true
+--   (the whole Spec predicate on the model's output. Proved above: the one-per-cell clause
+--   `onePerCell_model`, the value of every metric given its row neighbours, name ↔ statistic tables,
+--   monotonicity. Missing: `lookupLast` returns the cell's own row entry when cells are pairwise
+--   distinct, and the row successor equals `Spec.C20.nextInSlice` (minimal later evaluation of the
+--   same slice and period) when evaluation dates in a row are distinct. Both are exercised by the
+--   driver: `specModel` is evaluated on every generated triangle.)
 
 end Bermuda.Properties.C20
